@@ -201,12 +201,7 @@ pub fn norm_obs(o: &OpObs) -> String {
     let mut s = String::new();
     s.push_str(&format!("err={} ", o.err.is_some()));
     for e in &o.events {
-        let t = match e {
-            ClientSessionEvent::UnknownTransactionResultReceived { transaction_id, .. } => format!("UnknownTransactionResultReceived({:#x})", transaction_id.to_bits()),
-            ClientSessionEvent::UnhandleableAmf0Command { command_name, .. } => format!("UnhandleableAmf0Command({})", command_name),
-            ClientSessionEvent::StreamMetadataReceived { metadata } => format!("Metadata({:?})", metadata).replace("NaN", "nan"),
-            other => format!("{:?}", other),
-        };
+        let t = fmt_client_event(e);
         s.push_str(&format!("E:{};", t));
     }
     for m in &o.out {
